@@ -295,7 +295,7 @@ def opOfString : String → Option Op
   | _ => Option.none
 
 def faultOfString : String → Fault
-  | "miss" => .miss | "lieExists" => .lieExists | "failGet" => .failGet | "forget" => .forget
+  | "miss" => .miss | "lieExists" => .lieExists | "failGet" => .failGet | "forget" => .forget | "lieBlind" => .lieBlind
   | _ => .behave
 
 def FUEL : Nat := 400
